@@ -306,3 +306,38 @@ def expand_step(ctx, prog):
         ok = ok and [(a[0], N(a[1]), a[2]) for a in ats] == [("Ne", "POS", "0")]
         why = "in loop copy%s; tail copy%s" % (a_in[5:], a_out[5:])
     ctx.ob(RS, "expand: per entry copy(out, dst, src, pos-src) under `pos != 0` only; after the loop copy(out, dst, src, expanded length - dst)", ok, why, f.loc())
+
+
+def expand_copy(ctx, prog):
+    """the decoder's `copy(out, dst, src, len)` helper: out[dst .. dst+len] := in[src .. src+len] (one slice copy, destination first,
+    the captured input as source) and nothing else - in every build configuration (a raw-pointer variant is a second implementation)"""
+    import re
+    RS = "SA-STEP"
+    f = prog.fn("hash_dual::algorithms::expand_block_hash_using_rle")
+    cls = prog.closures_of(f)
+    ok = len(cls) == 1
+    why = "%d closures" % len(cls)
+    if ok:
+        g = cls[0]
+        ctx.visit(g)
+        sy = Sym(g)
+        # positional names: 2 = destination array, 3 = dst, 4 = src, 5 = len; capture 1.0 = the input block hash
+        P = {k: "param:%s" % (g.locals[k]["name"] or str(k)) for k in range(1, g.argc + 1)}
+        eff = [(callee_of(t), [canon(strip(sy.operand(a))) for a in t["args"]]) for i, t in g.calls()
+               if any(a["k"] in ("copy", "move") and a["pl"]["ty"].startswith(("&mut", "*mut", "*const")) for a in t["args"]) or
+               "ptr::" in callee_of(t) or callee_of(t).endswith(("copy_from_slice", "clone_from_slice"))]
+        copies = [(c, a) for c, a in eff if c.endswith(("::clone_from_slice", "::copy_from_slice"))]
+        other = [c for c, a in eff if not c.endswith(("::clone_from_slice", "::copy_from_slice", "::index_mut", "::index"))]
+        ok = len(copies) == 1 and not other and g.argc == 5
+        why = "effects: %s" % [c.split("::")[-1] for c, a in eff]
+        if ok:
+            d, s_ = copies[0][1][0], copies[0][1][1]
+            want_d = "core::array::<impl core::ops::IndexMut<I> for [T; N]>::index_mut(%s,core::ops::Range::Range{%s,Add(%s,%s)})" % (P[2], P[3], P[3], P[5])
+            want_s = "core::array::<impl core::ops::Index<I> for [T; N]>::index(param:1.0,core::ops::Range::Range{%s,Add(%s,%s)})" % (P[4], P[4], P[5])
+            d = re.sub(r"^\((\w+)WithOverflow\((.*)\)\)\.0$", r"\1(\2)", d)
+            d = re.sub(r"\(AddWithOverflow\(([^()]*)\)\)\.0", r"Add(\1)", d)
+            s_ = re.sub(r"\(AddWithOverflow\(([^()]*)\)\)\.0", r"Add(\1)", s_)
+            ok = d == want_d and s_ == want_s
+            why = "copy(%s <- %s)" % (d[-70:], s_[-70:])
+            caps = [canon(strip(x)) for x in []]
+    ctx.ob(RS, "expand: the copy helper is out[dst..dst+len] := in[src..src+len] by one slice copy and nothing else", ok, why, f.loc())
